@@ -87,12 +87,26 @@ func (a *batchConn) inspectPendingRequests(checkTime time.Time) {
 	}
 }
 
+// heldRequestsRetryInterval is how long the send loop waits for new requests while it holds entries back.
+const heldRequestsRetryInterval = 5 * time.Millisecond
+
 // fetchAllPendingRequests fetches all pending requests from the channel.
 func (a *batchConn) fetchAllPendingRequests(maxBatchSize int) (headRecvTime time.Time, headArrivalInterval time.Duration) {
 	// Block on the first element.
 	latestReqArriveTime := a.reqBuilder.latestReqArriveTime
 	var headEntry *batchCommandsEntry
+	// Entries held back by the concurrency limit are still in the builder. Do not wait for the next request to arrive
+	// before looking at them again: they can be sent as soon as a response frees a slot, and if nothing else arrives
+	// they would otherwise sit there until their callers give up.
+	var heldRetry <-chan time.Time
+	if a.reqBuilder.len() > 0 {
+		timer := time.NewTimer(heldRequestsRetryInterval)
+		defer timer.Stop()
+		heldRetry = timer.C
+	}
 	select {
+	case <-heldRetry:
+		return time.Now(), 0
 	case headEntry = <-a.batchCommandsCh:
 		if !a.idleDetect.Stop() {
 			<-a.idleDetect.C
